@@ -271,6 +271,14 @@ def run(ctx):
                              "rule": "case = (wait/wait-if/signal/broadcast/set-flag/read programs per fiber, schedule)"})
         if (not ok or ctx.failures) and not ctx.violations:
             search(ctx, exe)
+    from vf.props import C01
+    def _sigstorm(rng):     # several fibers signalling WITHOUT the user mutex at once, waiters that re-wait immediately
+        progs = [[(15, 0)] * rng.randint(3, 6) for _ in range(rng.randint(2, 4))] + \
+                [[(17, 0)] * rng.randint(1, 3) for _ in range(rng.randint(1, 3))]
+        rng.shuffle(progs)
+        return progs
+    C01.runtime_layer(ctx, "cond", "condition variable on the whole runtime", [9, 9, 15, 15, 15, 16, 17, 7, 8, 1, 2, 3],
+                      nks=(2, 3, 3, 4, 4), seedoff=5, progs_fn=_sigstorm)
     core.init_contract(ctx, ["fiber_cond"])  # rt/h_init.c: real init on dirty memory
     core.finish(ctx, extra_assumptions=ASSUME)
 
@@ -292,6 +300,9 @@ def search(ctx, exe):
 
 
 def replay(ctx, payload):
+    if payload.get("harness") == "kernel":
+        from vf.props import C01
+        return C01.replay(ctx, payload)
     if payload.get("harness") == "h_init":
         return core.replay_init(ctx, payload)
     exe = build(ctx)
